@@ -809,8 +809,29 @@ func (m *Manager) computeMedianFee() types.Currency {
 	return *m.txpool.medianFee
 }
 
-func (m *Manager) computeParentMap() map[types.Hash256]int {
+// computeParentMap maps the ids of the elements created by the pooled v1 (or,
+// if v2 is set, v2) transactions to the position of their transaction. The two
+// pool slices are indexed separately, so a map must not mix them.
+func (m *Manager) computeParentMap(v2 bool) map[types.Hash256]int {
 	parentMap := make(map[types.Hash256]int)
+	if v2 {
+		for index, txn := range m.txpool.v2txns {
+			txid := txn.ID()
+			for i := range txn.SiacoinOutputs {
+				parentMap[types.Hash256(txn.SiacoinOutputID(txid, i))] = index
+			}
+			for _, sfi := range txn.SiafundInputs {
+				parentMap[types.Hash256(types.SiafundOutputID(sfi.Parent.ID).V2ClaimOutputID())] = index
+			}
+			for i := range txn.SiafundOutputs {
+				parentMap[types.Hash256(txn.SiafundOutputID(txid, i))] = index
+			}
+			for i := range txn.FileContracts {
+				parentMap[types.Hash256(txn.V2FileContractID(txid, i))] = index
+			}
+		}
+		return parentMap
+	}
 	for index, txn := range m.txpool.txns {
 		for i := range txn.SiacoinOutputs {
 			parentMap[types.Hash256(txn.SiacoinOutputID(i))] = index
@@ -823,21 +844,6 @@ func (m *Manager) computeParentMap() map[types.Hash256]int {
 		}
 		for i := range txn.FileContracts {
 			parentMap[types.Hash256(txn.FileContractID(i))] = index
-		}
-	}
-	for index, txn := range m.txpool.v2txns {
-		txid := txn.ID()
-		for i := range txn.SiacoinOutputs {
-			parentMap[types.Hash256(txn.SiacoinOutputID(txid, i))] = index
-		}
-		for _, sfi := range txn.SiafundInputs {
-			parentMap[types.Hash256(types.SiafundOutputID(sfi.Parent.ID).V2ClaimOutputID())] = index
-		}
-		for i := range txn.SiafundOutputs {
-			parentMap[types.Hash256(txn.SiafundOutputID(txid, i))] = index
-		}
-		for i := range txn.FileContracts {
-			parentMap[types.Hash256(txn.V2FileContractID(txid, i))] = index
 		}
 	}
 	return parentMap
@@ -1155,7 +1161,7 @@ func (m *Manager) UnconfirmedParents(txn types.Transaction) []types.Transaction 
 	defer m.mu.Unlock()
 	m.revalidatePool()
 
-	parentMap := m.computeParentMap()
+	parentMap := m.computeParentMap(false)
 	var parents []types.Transaction
 	seen := make(map[int]bool)
 	check := func(id types.Hash256) {
@@ -1208,7 +1214,7 @@ func (m *Manager) V2TransactionSet(basis types.ChainIndex, txn types.V2Transacti
 	m.revalidatePool()
 
 	// get the transaction's parents
-	parentMap := m.computeParentMap()
+	parentMap := m.computeParentMap(true)
 	var parents []types.V2Transaction
 	var parentIndices []int
 	seen := make(map[int]bool)
